@@ -371,7 +371,7 @@ def main() -> int:
     root = common.scratch_dir('c06')
     rp = os.environ.get('VERIF_REPLAY')
     if chk.tier == 'quick':
-        nproj, hashseeds, norders = 12, [0, 1, 2, 7], 2
+        nproj, hashseeds, norders = 10, [0, 1, 7], 2
     else:
         nproj, hashseeds, norders = 96, [0, 1, 2, 3, 4, 5, 7, 11, 13, 42, 1234, 99999], 3
     if rp:
